@@ -109,6 +109,48 @@ partial def explore (A : Alg L R Q V) (letters : Array (L × Nat)) (maxReport : 
     i := i + 1
   return ⟨nodes, transitions, dis, disCount⟩
 
+/-- for every implementation state that occurs in the reachable product, a shortest text (as runes)
+after which the implementation is in that state — used by the search to turn a one-step
+disagreement (state, code point, rest) into whole strings -/
+partial def statePaths (A : Alg L R Q V) (letters : Array (L × Nat)) : List (Nat × List Nat) := Id.run do
+  let proms := promises A letters
+  let mut idx : Std.HashMap (Node R Q) Nat := Std.HashMap.emptyWithCapacity 4096
+  let mut nodes : Array (Node R Q) := #[]
+  let mut parent : Array (Nat × Nat) := #[]
+  for (rho, _) in proms do
+    let n : Node R Q := ⟨none, A.q0, rho⟩
+    if !idx.contains n then
+      idx := idx.insert n nodes.size
+      parent := parent.push (nodes.size, 0)
+      nodes := nodes.push n
+  let mut seen : Std.HashMap Nat (List Nat) := Std.HashMap.emptyWithCapacity 256
+  let mut out : List (Nat × List Nat) := []
+  let mut i := 0
+  while i < nodes.size do
+    let n := nodes[i]!
+    match n.s with
+    | some sv =>
+      if !seen.contains sv then
+        let mut path : List Nat := []
+        let mut j := i
+        while parent[j]!.1 != j do
+          path := parent[j]!.2 :: path
+          j := parent[j]!.1
+        seen := seen.insert sv path
+        out := (sv, path) :: out
+    | none => pure ()
+    for (x, r) in letters do
+      for (rho', _) in proms do
+        if A.laStep x rho' == n.rho then
+          let t := A.trans n.s x rho'
+          let n' : Node R Q := ⟨some t.1, A.qstep n.q x, rho'⟩
+          if !idx.contains n' then
+            idx := idx.insert n' nodes.size
+            parent := parent.push (i, r)
+            nodes := nodes.push n'
+    i := i + 1
+  return out.reverse
+
 structure CutResult (R Q : Type) where
   nodes : Array (Node2 R Q)
   transitions : Nat
@@ -176,6 +218,14 @@ def report {R Q : Type} (name : String) (nLetters : Nat) (res : Result R Q) : Li
     let p := ",".intercalate (d.path.map toString)
     let s := ",".intercalate (d.suffix.map toString)
     s!"D state={d.implState} rune={d.letterRune} impl={d.implV} spec={d.specV} path={p} suffix={s}"
+
+def runPaths (alg : String) (runes : List Nat) : List String :=
+  let fmt (l : List (Nat × List Nat)) : List String :=
+    l.map fun (s, p) => s!"P {alg} {s} " ++ ",".intercalate (p.map toString)
+  if alg == "gr" then fmt (statePaths algG (dedupLetters gbLetter runes))
+  else if alg == "wb" then fmt (statePaths algW (dedupLetters wbL runes))
+  else if alg == "sb" then fmt (statePaths algS (dedupLetters sbL runes))
+  else fmt (statePaths algL (dedupLetters lbIn runes))
 
 def run (alg : String) (runes : List Nat) : List String :=
   if alg == "gr" then
